@@ -163,6 +163,48 @@ func prefixesOf(e gen.Expr, into map[string]bool) {
 	}
 }
 
+// usesFunc reports whether the expression calls the named function anywhere.
+func usesFunc(e gen.Expr, name string) bool {
+	switch v := e.(type) {
+	case *gen.Call:
+		if v.Name == name {
+			return true
+		}
+		for _, a := range v.Args {
+			if usesFunc(a, name) {
+				return true
+			}
+		}
+	case *gen.Path:
+		if v.Start != nil && usesFunc(v.Start, name) {
+			return true
+		}
+		for _, s := range v.Steps {
+			for _, p := range s.Preds {
+				if usesFunc(p, name) {
+					return true
+				}
+			}
+		}
+	case *gen.Bin:
+		return usesFunc(v.L, name) || usesFunc(v.R, name)
+	case *gen.Neg:
+		return usesFunc(v.E, name)
+	case *gen.Group:
+		return usesFunc(v.E, name)
+	case *gen.Filter:
+		if usesFunc(v.Primary, name) {
+			return true
+		}
+		for _, p := range v.Preds {
+			if usesFunc(p, name) {
+				return true
+			}
+		}
+	}
+	return false
+}
+
 func c14Spaces(tier string) []*explore.Space {
 	tests := []string{"a", "p:a", "x:a", "*", "b", "p:b", "q:a"}
 	var steps []gen.Expr
@@ -182,6 +224,19 @@ func c14Spaces(tier string) []*explore.Space {
 		fns = append(fns, gen.F(f))
 		for _, a := range args {
 			fns = append(fns, gen.F(f, a))
+		}
+	}
+	// name functions over arguments that keep iteration state, evaluated for
+	// several candidates of a predicate
+	G := func(e gen.Expr, preds ...gen.Expr) gen.Expr { return &gen.Filter{Primary: &gen.Group{E: e}, Preds: preds} }
+	stateful := []gen.Expr{relPath(gen.Ch("*", relPath(gen.At("*")), gen.N(1))), G(relPath(gen.Ch("*")), gen.N(1)), G(relPath(gen.Ch("*")), gen.F("last")), relPath(gen.Ch("*", gen.B(">", gen.F("position"), gen.N(1)), gen.N(1))),
+		G(relPath(gen.At("*")), gen.N(1)), relPath(gen.Ch("*"), gen.Ch("*", gen.N(1)))}
+	for _, f := range []string{"name", "local-name", "namespace-uri"} {
+		for _, a := range stateful {
+			fns = append(fns, gen.F(f, a))
+			for _, v := range []string{"a", "p:a", "u1", ""} {
+				fns = append(fns, gen.AbsP(gen.DSlash(), gen.Ch("*", gen.B("=", gen.F(f, a), gen.S(v)))), relPath(gen.Ch("*", gen.B("!=", gen.F(f, a), gen.S(v)))))
+			}
 		}
 	}
 	// name functions inside predicates
@@ -205,10 +260,8 @@ func c14Spaces(tier string) []*explore.Space {
 		keep := func(in []gen.Expr, nsURI bool) []gen.Expr {
 			var out []gen.Expr
 			for _, e := range in {
-				if !nsURI && !c.navNS {
-					if call, ok := e.(*gen.Call); ok && call.Name == "namespace-uri" {
-						continue // a navigator without URIs cannot answer namespace-uri()
-					}
+				if !nsURI && !c.navNS && usesFunc(e, "namespace-uri") {
+					continue // a navigator without URIs cannot answer namespace-uri()
 				}
 				pf := map[string]bool{}
 				prefixesOf(e, pf)
